@@ -347,7 +347,8 @@ func c01EmptyBlockMinified(x *c01Ctx, d *c01Div) bool {
 // attaches them to the function body.
 //
 // Predicate: the printed node contains a Stmt whose command is a FuncDecl and
-// which has redirects of its own; the output parses to a different tree.
+// which has a redirect of its own positioned before the declaration; the
+// output parses to a different tree.
 func c01RedirBeforeFuncDecl(x *c01Ctx, d *c01Div) bool {
 	if d.Kind != "tree" {
 		return false
@@ -355,7 +356,7 @@ func c01RedirBeforeFuncDecl(x *c01Ctx, d *c01Div) bool {
 	found := false
 	syntax.Walk(d.Node, func(n syntax.Node) bool {
 		if s, ok := n.(*syntax.Stmt); ok && len(s.Redirs) > 0 {
-			if _, ok := s.Cmd.(*syntax.FuncDecl); ok {
+			if fd, ok := s.Cmd.(*syntax.FuncDecl); ok && fd.Pos().After(s.Redirs[0].Pos()) {
 				found = true
 			}
 		}
